@@ -184,6 +184,43 @@ static void history(Rng& r, unsigned steps) {
     std::fprintf(g_tr, "{\"e\":\"end\"}\n");
 }
 
+// TLC -> code: every transition of the abstract history machine (spec/Gen_Alloc.tla) as one mini-history:
+//   "<pre sizes...> | a <size index>"  or  "<pre sizes...> | d <position>"
+// the allocator is brought into the pre-state, the operation is performed, everything is released.
+static std::vector<std::string> g_script;
+template<class T, std::size_t A>
+static void scripted() {
+    const std::size_t ns[] = {0, 1, 3, 8, 17, 64};
+    set_label("alloc", "allocgen");
+    for (const std::string& ln : g_script) {
+        std::fprintf(g_tr, "{\"e\":\"reset\",\"tsize\":%lu,\"A\":%lu}\n", (unsigned long) sizeof(T), (unsigned long) A);
+        std::vector<int> tok;
+        char kind = 0;
+        int arg = 0;
+        {
+            const char* c = ln.c_str();
+            bool after = false;
+            while (*c) {
+                if (*c == '|') { after = true; ++c; continue; }
+                if (*c == ' ') { ++c; continue; }
+                if (after && (*c == 'a' || *c == 'd')) { kind = *c; ++c; continue; }
+                int v = std::atoi(c);
+                while (*c && *c != ' ') ++c;
+                if (after) arg = v; else tok.push_back(v);
+            }
+        }
+        for (int sidx : tok) { do_allocate<T, A>(ns[sidx]); check_event(); }
+        if (kind == 'a') do_allocate<T, A>(ns[arg]);
+        else if (kind == 'd' && std::size_t(arg) >= 1 && std::size_t(arg) <= g_live.size()) do_deallocate<T, A>(std::size_t(arg) - 1);
+        check_event();
+        while (!g_live.empty()) {
+            do_deallocate<T, A>(g_live.size() - 1);
+            check_event();
+        }
+        std::fprintf(g_tr, "{\"e\":\"end\"}\n");
+    }
+}
+
 struct S3 { char b[3]; };
 struct S16 { double a, b; };
 struct S24 { char b[24]; };
@@ -195,7 +232,20 @@ int main(int argc, char** argv) {
     std::uint64_t seed = std::strtoull(argv[3], nullptr, 10);
     std::string prefix = argv[4];
     if (!open_sink(prefix)) return 2;
-    g_tr = std::fopen((prefix + ".alloc.trace").c_str(), "w");
+    const bool gen = std::strcmp(argv[1], "allocgen") == 0;
+    if (gen) {
+        const char* sp = std::getenv("VH_ALLOC_SCRIPT");
+        FILE* sf = sp ? std::fopen(sp, "r") : nullptr;
+        if (!sf) return 2;
+        char line[256];
+        while (std::fgets(line, sizeof(line), sf)) {
+            std::string l(line);
+            while (!l.empty() && (l.back() == '\n' || l.back() == ' ')) l.pop_back();
+            if (!l.empty()) g_script.push_back(l);
+        }
+        std::fclose(sf);
+    }
+    g_tr = std::fopen((prefix + (gen ? ".allocgen.trace" : ".alloc.trace")).c_str(), "w");
     if (!g_tr) return 2;
     static char buf[1 << 20];
     std::setvbuf(g_tr, buf, _IOFBF, sizeof(buf));
@@ -206,28 +256,29 @@ int main(int argc, char** argv) {
     install_handlers();
     Rng r(seed * 7919 + 13);
     const unsigned steps = g_tier ? 4000 : 300;
-    history<char, 1>(r, steps);
-    history<char, 16>(r, steps);
-    history<char, 32>(r, steps);
-    history<char, 64>(r, steps);
-    history<char, 4096>(r, steps);
-    history<S3, 1>(r, steps);
-    history<S3, 32>(r, steps);
-    history<S3, 128>(r, steps);
-    history<short, 2>(r, steps);
-    history<short, 64>(r, steps);
-    history<int, 4>(r, steps);
-    history<int, 32>(r, steps);
-    history<int, 256>(r, steps);
-    history<double, 8>(r, steps);
-    history<double, 16>(r, steps);
-    history<double, 64>(r, steps);
-    history<S16, 16>(r, steps);
-    history<S16, 64>(r, steps);
-    history<S24, 32>(r, steps);
-    history<S24, 1024>(r, steps);
-    history<S64, 64>(r, steps);
-    history<S64, 128>(r, steps);
+#define VH_ALLOC_INST(T_, A_) if (gen) scripted<T_, A_>(); else history<T_, A_>(r, steps);
+    VH_ALLOC_INST(char, 1)
+    VH_ALLOC_INST(char, 16)
+    VH_ALLOC_INST(char, 32)
+    VH_ALLOC_INST(char, 64)
+    VH_ALLOC_INST(char, 4096)
+    VH_ALLOC_INST(S3, 1)
+    VH_ALLOC_INST(S3, 32)
+    VH_ALLOC_INST(S3, 128)
+    VH_ALLOC_INST(short, 2)
+    VH_ALLOC_INST(short, 64)
+    VH_ALLOC_INST(int, 4)
+    VH_ALLOC_INST(int, 32)
+    VH_ALLOC_INST(int, 256)
+    VH_ALLOC_INST(double, 8)
+    VH_ALLOC_INST(double, 16)
+    VH_ALLOC_INST(double, 64)
+    VH_ALLOC_INST(S16, 16)
+    VH_ALLOC_INST(S16, 64)
+    VH_ALLOC_INST(S24, 32)
+    VH_ALLOC_INST(S24, 1024)
+    VH_ALLOC_INST(S64, 64)
+    VH_ALLOC_INST(S64, 128)
     std::fclose(g_tr);
     close_sink();
     return 0;
